@@ -12,6 +12,7 @@ import (
 	"errors"
 	"fmt"
 	"os"
+	"reflect"
 	"runtime"
 	"strings"
 	"sync"
@@ -27,7 +28,7 @@ import (
 type item struct {
 	ID   string `json:"id"`
 	Kind string `json:"kind"` // worker startworker service hook task micro_high micro_med micro_low startmicro signal
-	Out  string `json:"out"`  // ok err panic_nil panic_err panic_str panic_rt panic_struct
+	Out  string `json:"out"`  // ok err panic_nil panic_err panic_str panic_rt panic_struct panic_cancel panic_slice panic_twice
 	Done int    `json:"done"` // signal variants: how often done() is called
 	Bo   int    `json:"bo"`   // service workers: restart back-off in milliseconds (0: 10 ms)
 }
@@ -44,6 +45,12 @@ type script struct {
 }
 
 type payload struct{ A, B int }
+
+// payloadS is a panic value of a type that cannot be compared with ==.
+type payloadS struct {
+	Op      string
+	Pending []int
+}
 
 var (
 	tr       *vio.Trace
@@ -74,6 +81,11 @@ func panicValue(out string) any {
 		return "injected string value"
 	case "panic_struct":
 		return payload{A: 7, B: 9}
+	case "panic_cancel":
+		// an error value that wraps a sentinel the worker loops look for in *returned* errors
+		return fmt.Errorf("sub-operation aborted: %w", context.Canceled)
+	case "panic_slice", "panic_twice":
+		return payloadS{Op: "flush", Pending: []int{1, 2, 3}}
 	}
 	return nil
 }
@@ -104,7 +116,13 @@ func work(it *item) func(ctx context.Context) error {
 		mu.Unlock()
 		if n > 1 {
 			// service worker restarted / task ran again after a failure
-			emit(map[string]any{"e": "restarted", "i": it.ID})
+			if n == 2 {
+				emit(map[string]any{"e": "restarted", "i": it.ID})
+			}
+			if n == 2 && it.Out == "panic_twice" {
+				// the same item panics again with an equal value, nothing else reported in between
+				panic(panicValue(it.Out))
+			}
 			return nil
 		}
 		sch.Bind(it.ID)
@@ -134,8 +152,11 @@ func wret(it *item, err error) {
 		case "panic_err":
 			e, ok := me.PanicValue.(error)
 			valueOK = ok && e.Error() == "injected error value"
+		case "panic_cancel":
+			e, ok := me.PanicValue.(error)
+			valueOK = ok && errors.Is(e, context.Canceled) && e.Error() == fmt.Sprint(panicValue(it.Out))
 		default:
-			valueOK = me.PanicValue == panicValue(it.Out)
+			valueOK = reflect.DeepEqual(me.PanicValue, panicValue(it.Out))
 		}
 	}
 	emit(map[string]any{"e": "wret", "i": it.ID, "isPanic": isPanic, "valueOK": valueOK, "hasStack": hasStack,
